@@ -897,7 +897,7 @@ pub fn run(args: &Args) -> i32 {
     rep.assumption("host-level surfaces are judged through the recovery certificate (transactions replayed, last LSN, recovered indexes root) and the client-observable fingerprint, each compared with those of every untampered committed prefix");
     rep.assumption("a corruption that yields a strictly shorter committed prefix (e.g. a damaged length field that makes the rest of the file look like a torn tail) is allowed by the property statement and only counted");
 
-    let n_logs = args.by_tier(2u64, 3u64);
+    let n_logs = args.by_tier(2u64, 10u64);
     let mut exhaustive = true;
     let mut logs = Vec::new();
     for li in 0..n_logs {
